@@ -901,7 +901,7 @@ func buildAnyLocalCRLs(
 		// these certificates to an issuer. Some certificates will not be
 		// assignable (if they were issued by a since-deleted issuer), so we need
 		// a separate pool for those.
-		unassignedCerts, revokedCertsMap, err = getLocalRevokedCertEntries(sc, issuerIDCertMap, isDelta)
+		unassignedCerts, revokedCertsMap, err = getLocalRevokedCertEntries(sc, issuerIDEntryMap, issuerIDCertMap, isDelta)
 		if err != nil {
 			return nil, nil, fmt.Errorf("error building CRLs: unable to get revoked certificate entries: %w", err)
 		}
@@ -1195,7 +1195,7 @@ func associateRevokedCertWithIsssuer(revInfo *revocationInfo, revokedCert *x509.
 	return false
 }
 
-func getLocalRevokedCertEntries(sc *storageContext, issuerIDCertMap map[issuerID]*x509.Certificate, isDelta bool) ([]pkix.RevokedCertificate, map[issuerID][]pkix.RevokedCertificate, error) {
+func getLocalRevokedCertEntries(sc *storageContext, issuerIDEntryMap map[issuerID]*issuerEntry, issuerIDCertMap map[issuerID]*x509.Certificate, isDelta bool) ([]pkix.RevokedCertificate, map[issuerID][]pkix.RevokedCertificate, error) {
 	var unassignedCerts []pkix.RevokedCertificate
 	revokedCertsMap := make(map[issuerID][]pkix.RevokedCertificate)
 
@@ -1209,9 +1209,14 @@ func getLocalRevokedCertEntries(sc *storageContext, issuerIDCertMap map[issuerID
 		return nil, nil, errutil.InternalError{Err: fmt.Sprintf("error fetching list of revoked certs: %s", err)}
 	}
 
-	// Build a mapping of issuer serial -> certificate.
+	// Build a mapping of issuer serial -> certificate, of the issuers whose
+	// own revocation entries we skip below: revoked issuers and roots.
 	issuerSerialCertMap := make(map[string][]*x509.Certificate, len(issuerIDCertMap))
-	for _, cert := range issuerIDCertMap {
+	for id, cert := range issuerIDCertMap {
+		if entry, ok := issuerIDEntryMap[id]; (!ok || !entry.Revoked) && cert.CheckSignatureFrom(cert) != nil {
+			continue
+		}
+
 		serialStr := serialFromCert(cert)
 		issuerSerialCertMap[serialStr] = append(issuerSerialCertMap[serialStr], cert)
 	}
@@ -1259,6 +1264,12 @@ func getLocalRevokedCertEntries(sc *storageContext, issuerIDCertMap map[issuerID
 		//    but in the case we mark the root itself as "revoked", we want
 		//    to avoid it appearing on the CRL as that is definitely
 		//    undefined/little-supported behavior.
+		//
+		// An issuer which isn't marked as revoked is not handled by
+		// augmentWithRevokedIssuers: if its certificate was revoked (by
+		// serial number, before it was imported as an issuer), this entry
+		// is all we have, and the certificate must stay on the CRLs of the
+		// issuers that signed it.
 		//
 		// This hash map lookup should be faster than byte comparison against
 		// each issuer proactively.
